@@ -5,8 +5,9 @@
 (* abs is the abstract value of a pattern: the minimised automaton of its  *)
 (* compiled program over the case's alphabet (equal tables = equal         *)
 (* languages, i.e. "matches the same paths" for ALL paths), every query    *)
-(* result, the capturing tokens, the display text, and the capture vectors *)
-(* on a set of concrete paths.                                             *)
+(* result, the capturing tokens, the display text, what partitioning it    *)
+(* gives (prefix, displayed postfix), and the capture vectors on a set of  *)
+(* concrete paths.                                                         *)
 (*                                                                         *)
 (*   Clone, IntoOwned, DisplayNew, FromStr, TryFrom :  abs' = abs          *)
 (*   AnyOfText, AnyOfCompiled, AnyOfNested          :  abs' = Collapse(abs)*)
